@@ -2,8 +2,8 @@
 import os
 from tools.py2lean import gen_c15
 
-LEAN_TARGETS = ["EasyFEAVerif.Props.C15"]
-PROPS_MODULES = ["EasyFEAVerif.Props.C15"]
+LEAN_TARGETS = ["EasyFEAVerif.Props.C15", "EasyFEAVerif.Props.C15Store"]
+PROPS_MODULES = ["EasyFEAVerif.Props.C15", "EasyFEAVerif.Props.C15Store"]
 TRUSTED_EXTRA = [
     "C15: the mesh-history bookkeeping (mesh setter, Save_Iter, Set_Iter, __Update_mesh) is matched statement by statement and modelled by MeshHist (refinement proved for every operation sequence); the store model (Model/IterStore.lean) is hand-written; files are identified by (folder, iteration counter): injectivity of the file-name encoding and pickle's round trip are assumed",
     "C15: 'getters copy, setters store': absence of aliasing between stored arrays and live state is checked on the real code (earlier iterations re-read after every operation), not proved",
